@@ -14,7 +14,7 @@ REQUIRED_MONITORS = ["markers@stab_plot(function)", "markers@cluster_plot(functi
                      "markers@pLSCF.plot_stab", "markers@pLSCF.plot_cluster", "curves@FDD.plot_CMIF", "marker-order accepted by mpe"]
 ALL_STATES = ["hide_poles=True", "hide_poles=False", "with covariance error bars", "freqlim given", "step=1", "step=2", "step=3", "more rows than orders", "more orders than rows",
               "empty column", "no stable pole", "nSv=all", "nSv<all"]
-REQUIRED_STATES = ["hide_poles=True", "hide_poles=False", "with covariance error bars", "freqlim given", "step=2", "more rows than orders", "more orders than rows", "nSv=all", "nSv<all", "column-major tables",
+REQUIRED_STATES = ["hide_poles given as a numpy boolean / integer / 0-d array", "nSv=0", "hide_poles=True", "hide_poles=False", "with covariance error bars", "freqlim given", "step=2", "more rows than orders", "more orders than rows", "nSv=all", "nSv<all", "column-major tables",
                    "earlier figures left open", "49 or more pole slots", "several objects of one class and name plotted in one process",
                    "retained poles with a value of exactly zero", "labels stored as bool / int8 / uint8 / int32 / float"]
 RULE = ("random pole / label tables up to 60 orders, non-square, any NaN pattern, labels 0/1, step 1..3 at function level, freqlim, with/without covariance; results "
@@ -151,18 +151,22 @@ def run_tables(ctx, rng):
 
 
 def _run_tables_body(ctx, rng, P_, plt, Fn, Xi, Lab, mask, Fc, Lc, step, hide, freqlim, cov, nr, no):
-    fig, ax = P_.stab_plot(Fn, Lab, step, (no - 1) * step, ordmin=int(rng.integers(0, no)) * step, freqlim=freqlim, hide_poles=hide, Fn_cov=cov)
+    # the switch is a flag: on when truthy, whatever carries it (a numpy comparison result, an integer from a settings table, ...)
+    hide_, nothide_ = [(hide, not hide), (np.bool_(hide), np.bool_(not hide)), (int(hide), int(not hide)), (np.array(hide), np.array(not hide))][int(rng.integers(0, 4))]
+    if not isinstance(hide_, bool):
+        ctx.state("hide_poles given as a numpy boolean / integer / 0-d array")
+    fig, ax = P_.stab_plot(Fn, Lab, step, (no - 1) * step, ordmin=int(rng.integers(0, no)) * step, freqlim=freqlim, hide_poles=hide_, Fn_cov=cov)
     judge_axes(ctx, "markers@stab_plot(function)", "stab", ax, Fc, Lc, lambda i, j: j * step, hide)
     ctx.check(np.array_equal(Fn, Fc, equal_nan=True) and np.array_equal(Lab, Lc), "stab:inputs_modified", "stab_plot modified its inputs")
     if freqlim is not None:
         ctx.check(tuple(np.round(ax.get_xlim(), 9)) == freqlim, "stab:freqlim", lambda: f"xlim {ax.get_xlim()} for freqlim {freqlim}")
     plt.close(fig)
     # history: the same diagram drawn again (a dialog re-plots after every click) must show the same markers
-    fig, ax = P_.stab_plot(Fn, Lab, step, (no - 1) * step, ordmin=0, freqlim=freqlim, hide_poles=hide, Fn_cov=cov)
+    fig, ax = P_.stab_plot(Fn, Lab, step, (no - 1) * step, ordmin=0, freqlim=freqlim, hide_poles=hide_, Fn_cov=cov)
     judge_axes(ctx, "markers@stab_plot(function)", "stab_second_call", ax, Fc, Lc, lambda i, j: j * step, hide)
     plt.close(fig)
     Xc = Xi.copy()
-    fig, ax = P_.cluster_plot(Fn, Xi, Lab, ordmin=0, freqlim=freqlim, hide_poles=hide)
+    fig, ax = P_.cluster_plot(Fn, Xi, Lab, ordmin=0, freqlim=freqlim, hide_poles=hide_)
     judge_axes(ctx, "markers@cluster_plot(function)", "cluster", ax, Fc, Lc, lambda i, j: Xc[i, j], hide)
     ctx.check(np.array_equal(Fn, Fc, equal_nan=True) and np.array_equal(Xi, Xc, equal_nan=True) and np.array_equal(Lab, Lc), "cluster:inputs_modified", "cluster_plot modified its inputs")
     plt.close(fig)
@@ -170,7 +174,7 @@ def _run_tables_body(ctx, rng, P_, plt, Fn, Xi, Lab, mask, Fc, Lc, step, hide, f
     Fn2 = np.where(np.isfinite(Fn), Fn * 0.5 + 1.0, np.nan)
     Lab2 = np.where(np.isfinite(Fn), 1 - Lab, 0)
     Lab2[:, 0] = 0
-    fig, ax = P_.cluster_plot(Fn2, Xi, Lab2, ordmin=0, freqlim=freqlim, hide_poles=not hide)
+    fig, ax = P_.cluster_plot(Fn2, Xi, Lab2, ordmin=0, freqlim=freqlim, hide_poles=nothide_)
     judge_axes(ctx, "markers@cluster_plot(function)", "cluster_second_diagram", ax, Fn2, Lab2, lambda i, j: Xc[i, j], not hide)
     plt.close(fig)
     if nr >= 49:
@@ -225,6 +229,11 @@ def run_cmif(ctx, rng):
     for k in range(nch):
         S_val[k, k] = S[k]
     nSv = "all" if rng.random() < 0.4 else int(rng.integers(1, nch))
+    if rng.random() < 0.12:
+        nSv = [0, np.int64(0)][int(rng.integers(0, 2))]  # the lowest admissible request: no curve
+        ctx.state("nSv=0")
+    elif nSv != "all" and rng.random() < 0.3:
+        nSv = np.int64(nSv)
     freqlim = (float(freq[1]), float(freq[-2])) if rng.random() < 0.3 else None
     fig, ax = P_.CMIF_plot(S_val.copy(), freq.copy(), freqlim=freqlim, nSv=nSv)
     judge_cmif(ctx, "curves@CMIF_plot(function)", "cmif", ax, S_val, freq, nSv)
@@ -261,7 +270,10 @@ def run_classes(ctx, rng):
     for alg, nm in ((a, "SSIcov"), (p, "pLSCF")):
         r = alg.result
         Fn, Xi, Lab = np.asarray(r.Fn_poles), np.asarray(r.Xi_poles), np.asarray(r.Lab)
-        fig, ax = alg.plot_stab(freqlim=freqlim, hide_poles=hide)
+        hide_ = [hide, np.bool_(hide), int(hide)][int(rng.integers(0, 3))]
+        if not isinstance(hide_, bool):
+            ctx.state("hide_poles given as a numpy boolean / integer / 0-d array")
+        fig, ax = alg.plot_stab(freqlim=freqlim, hide_poles=hide_)
         judge_axes(ctx, f"markers@{nm}.plot_stab", f"{nm}_stab", ax, Fn, Lab, lambda i, j: j, hide)
         # the ordinate of a stable marker is an order accepted by extraction and yields that pole
         _, g = green_markers(ax)
@@ -274,7 +286,7 @@ def run_classes(ctx, rng):
                 ss.mpe(alg.name, sel_freq=[float(x)], order=o, rtol=1e-9)
                 got = np.atleast_1d(alg.result.Fn)
                 ctx.check(len(got) == 1 and got[0] == x, f"{nm}:marker_order_not_accepted_by_mpe", lambda: f"{nm}: marker (f={x}, order={o}) but mpe(order={o}) returns {got}")
-        fig, ax = alg.plot_cluster(freqlim=freqlim, hide_poles=hide)
+        fig, ax = alg.plot_cluster(freqlim=freqlim, hide_poles=hide_)
         judge_axes(ctx, f"markers@{nm}.plot_cluster", f"{nm}_cluster", ax, Fn, Lab, lambda i, j: Xi[i, j], hide)
         # the other variant while the first figure is still open
         fig2, ax2 = alg.plot_cluster(freqlim=freqlim, hide_poles=not hide)
@@ -307,6 +319,9 @@ def run_classes(ctx, rng):
     ctx.state("several objects of one class and name plotted in one process")
     nch = np.shape(f.result.S_val)[0]
     nSv = "all" if rng.random() < 0.5 else int(rng.integers(1, nch))
+    if rng.random() < 0.15:
+        nSv = 0
+        ctx.state("nSv=0")
     fig, ax = f.plot_CMIF(freqlim=freqlim, nSv=nSv)
     judge_cmif(ctx, "curves@FDD.plot_CMIF", "FDD_cmif", ax, np.asarray(f.result.S_val), np.asarray(f.result.freq), nSv)
     plt.close(fig)
